@@ -1016,6 +1016,10 @@ class Interp:
             return alg.Fn("select", c.astuple(), a, b)
         if a is b:
             return a
+        from .values import inf_select
+        r = inf_select(c, a, b)
+        if r is not None:
+            return r
         return Opaque("select of non-E cells")
 
     def learn(self, g):
